@@ -104,7 +104,27 @@ def r15_1(ctx):
             # layout B: recording next to the write
             writes = [c for ff, c, w in _file_write_sites_ext(ctx) if ff is f and w.endswith(".write")]
             renders = [c for c in walk_local(f.node) if isinstance(c, ast.Call) and norm(c.func).endswith("._render_buffer")]
-            same = [c for c in renders if c.args and norm(c.args[0]) == norm(arg)]
+            from ..astutil import inline as _inl151, single_defs as _sdf151
+            sd151 = _sdf151(f.node)
+            # two copies of the thread's own buffer taken in the same critical section with nothing mutating it in between hold the same segments
+            arg_full = norm(_inl151(arg, sd151))
+            same = [c for c in renders if c.args and norm(_inl151(c.args[0], sd151)) == arg_full]
+            if same and arg_full != norm(arg):
+                g151 = cfgmod.build(f.node)
+                muts = set()
+                for nd in g151.stmt_nodes():
+                    if nd.kind == "stmt" and nd.stmt is not None and (isinstance(nd.stmt, ast.Delete) or any(isinstance(c_, ast.Call) and isinstance(c_.func, ast.Attribute) and c_.func.attr in ("append", "extend", "clear", "pop", "insert", "remove") and "_buffer" in norm(c_.func.value) and "_record_buffer" not in norm(c_.func.value) for c_ in ast.walk(nd.stmt))):
+                        if isinstance(nd.stmt, ast.Delete) and not any("self._buffer" in norm(t_) for t_ in nd.stmt.targets):
+                            continue
+                        muts.add(nd.id)
+                defst = [x for x in walk_local(f.node) if isinstance(x, ast.Assign) and isinstance(arg, ast.Name) and norm(x.targets[0]) == arg.id]
+                rst = same[0]
+                while not isinstance(rst, ast.stmt):
+                    rst = mod.parent_of[rst]
+                if defst and muts:
+                    between = g151.reach(g151.nodes_of(defst[0]), avoid=set(g151.nodes_of(rst)))
+                    if between & muts and set(g151.nodes_of(rst)) & g151.reach(list(between & muts)):
+                        same = []
             ctx.check(bool(same) and bool(writes), f.fq, short(n), where, f"records `{norm(arg)}`, the very snapshot that is rendered and written",
                       f"records `{norm(arg)}` but the string written to the file is rendered from {[norm(c.args[0]) for c in renders if c.args]}: record and file differ")
             if same and writes:
